@@ -154,6 +154,12 @@ def check(run, prog):
                 ck.same("R1", fi.where, f"{fi.name} on a signal already in the {pol} basis " + tag,
                         "identity: data passed through unchanged, pol_type kept", ok and out.attrs["_pol_type"].s == pol
                         and not meta_same(z, out), found=obj_summary(out), nontrivial=True)
+                # both conversions document "returns a copy of the signal object" and build one on the converting path: the identity
+                # path must agree with its sibling, or relabelling / rescaling the result (w.pol_type = ..., np.multiply(w, 2, out=w))
+                # silently changes the signal it was made from
+                ck.same("R1", fi.where, f"{fi.name} on a signal already in the {pol} basis " + tag + ": object",
+                        "a new signal object is returned on the identity path as on the converting path", out is not z,
+                        found="the very signal it was called on" if out is z else "a new object", nontrivial=True)
 
         # ---------------------------------------------------------------- R2 Stokes
         def stokes_expected(X, Y):
